@@ -33,7 +33,8 @@ def frames(kind):
     lt = e37.control(e37.LINKTEST_REQ, 0x203)
     dw = e37.data(1, 1, True, 0x204)
     sel = e37.control(e37.SELECT_REQ, 0x205)
-    return {"d9": [d9], "lt": [lt], "d9d1": [d9, d1], "d1ltd9": [d1, lt, d9], "dw": [dw], "sel_d9": [sel, d9], "lt_lt": [lt, e37.control(e37.LINKTEST_REQ, 0x206)]}[kind]
+    sep = e37.control(e37.SEPARATE_REQ, 0x207)
+    return {"sep": [sep], "d9sep": [d9, sep], "sepd9": [sep, d9], "d9": [d9], "lt": [lt], "d9d1": [d9, d1], "d1ltd9": [d1, lt, d9], "dw": [dw], "sel_d9": [sel, d9], "lt_lt": [lt, e37.control(e37.LINKTEST_REQ, 0x206)]}[kind]
 
 
 # ------------------------------------------------------------------------------------------ level 1
@@ -232,6 +233,23 @@ def run_l2(devs, budgets, script="srv_enable_disable", traced=True):
                     step("selected" if select(p2) else "not-selected")
             proto.disable()
             step("disabled")
+        elif script == "srv_separate_reconnect":
+            proto.enable()
+            p = connect_peer()
+            step("peer-connected" if p is not None else "peer-refused")
+            if p is not None:
+                select(p)
+                p.sendall(e37.control(e37.SEPARATE_REQ, 0x301))
+                step("separate-sent")
+                s.block(lambda: proto.connection_state.current.name == "NOT_CONNECTED", s.clock + 10, "wait not connected")
+                step("state:" + proto.connection_state.current.name)
+                p.close()
+                p2 = connect_peer(wait=10.0)
+                step("peer-reconnected" if p2 is not None else "peer-refused-again")
+                if p2 is not None:
+                    step("selected" if select(p2) else "not-selected")
+            proto.disable()
+            step("disabled")
         elif script == "cli_no_listener_disable":
             proto.enable()
             step("enabled")
@@ -283,11 +301,11 @@ def run_l2(devs, budgets, script="srv_enable_disable", traced=True):
     return res
 
 
-SCRIPTS = ["srv_enable_disable", "srv_connect_disable", "srv_partial_close_reconnect", "cli_no_listener_disable", "cli_connect_close_disable"]
+SCRIPTS = ["srv_enable_disable", "srv_connect_disable", "srv_partial_close_reconnect", "srv_separate_reconnect", "cli_no_listener_disable", "cli_connect_close_disable"]
 
 
 def l1_cases(thorough):
-    streams = ["d9", "lt", "d9d1", "dw"] + (["d1ltd9", "sel_d9", "lt_lt"] if thorough else [])
+    streams = ["d9", "lt", "d9d1", "dw", "sep", "d9sep"] + (["d1ltd9", "sel_d9", "lt_lt", "sepd9"] if thorough else [])
     for state in ("NS", "SEL", "SEL_OPEN"):
         for stream in streams:
             n = len(b"".join(frames(stream)))
@@ -344,7 +362,7 @@ def run(ctx):
     ctx.setcov("evaluations", tot + n)
     ctx.setcov("distinct_nontrivial", nontriv + len(ctx._nontrivial))
     ctx.setcov("rule", "level 1: session state x stream x every byte offset x {peer close, disable} (x every 2-segment split thorough), each followed "
-                       "by reconnect + select + first message; level 2: 5 enable/disable/connect/close scripts x every schedule with <= K delays; "
+                       "by reconnect + select + first message; level 2: 6 enable/disable/connect/close/separate scripts x every schedule with <= K delays; "
                        "non-trivial = offset > 0 (a partial or complete frame was delivered before the loss) or a schedule with >= 1 delay")
     ctx.setcov("delay_bound_level2", k)
     ctx.setcov("parts", parts)
